@@ -385,6 +385,73 @@ func suiteC02(c *Ctx) []Suite {
 			}
 			return out
 		}},
+		{Name: "wire/no-item-beyond-the-limit", Gen: func(c *Ctx) []Case {
+			// an item of more than 16,777,215 bytes has no encoding: no factory hands one out
+			// (a variable-free item that then encodes to nothing would be a partial encoding)
+			var out []Case
+			args := make([]interface{}, 4194304)
+			for i := range args {
+				args[i] = float32(1.5)
+			}
+			for _, f := range []struct {
+				name string
+				mk   func() ast.ItemNode
+			}{
+				{"F4[4194304]", func() ast.ItemNode { return ast.NewFloatNode(4, args...) }},
+				{"F8[2097152]", func() ast.ItemNode { return ast.NewFloatNode(8, args[:2097152]...) }},
+				{"U4[4194304]", func() ast.ItemNode {
+					for i := range args {
+						args[i] = uint8(1)
+					}
+					return ast.NewUintNode(4, args...)
+				}},
+				{"I8[2097152]", func() ast.ItemNode {
+					for i := range args {
+						args[i] = int8(1)
+					}
+					return ast.NewIntNode(8, args[:2097152]...)
+				}},
+			} {
+				var it ast.ItemNode
+				res := ""
+				if p, _ := safely(func() { it = f.mk() }); !p {
+					res = fmt.Sprintf("%s (16,777,216 bytes) was constructed; it encodes to %d bytes", f.name, len(it.ToBytes()))
+				}
+				out = append(out, Case{Detail: "over-limit " + f.name, Oracle: res, Nontrivial: true, Tags: []string{"over-limit"}})
+			}
+			return out
+		}},
+		{Name: "wire/list-length-boundaries", Gen: func(c *Ctx) []Case {
+			// lists of exactly 254..257 and 65534..65537 elements: the element count is written
+			// in the fewest length bytes
+			var out []Case
+			for _, n := range []int{254, 255, 256, 257, 65534, 65535, 65536, 65537} {
+				if n > 300 && c.Tier != "thorough" && n != 65535 && n != 65536 {
+					continue
+				}
+				slots := make([]Slot, n)
+				for i := range slots {
+					slots[i] = Slot{Child: &Node{Kind: "L"}}
+				}
+				it := (&Node{Kind: "L", Slots: slots}).Build()
+				b := it.ToBytes()
+				res := ""
+				var want []byte
+				switch {
+				case n <= 0xFF:
+					want = []byte{0x01, byte(n)}
+				case n <= 0xFFFF:
+					want = []byte{0x02, byte(n >> 8), byte(n)}
+				default:
+					want = []byte{0x03, byte(n >> 16), byte(n >> 8), byte(n)}
+				}
+				if len(b) != len(want)+2*n || !bytes.HasPrefix(b, want) {
+					res = fmt.Sprintf("list of %d empty lists encodes to %d bytes starting % x, want %d bytes starting % x", n, len(b), b[:imin(6, len(b))], len(want)+2*n, want)
+				}
+				out = append(out, Case{Detail: fmt.Sprintf("list of %d elements", n), Oracle: res, Nontrivial: true, Tags: []string{"list-boundary"}})
+			}
+			return out
+		}},
 		{Name: "wire/ascii-domain", Gen: func(c *Ctx) []Case {
 			// an ASCII item holds 7-bit characters only: every byte string with a byte >= 0x80
 			// (valid UTF-8 or not) is refused, so no encoding ever carries such a byte
